@@ -30,8 +30,20 @@ def mk_region_case(rng):
     R, C = rng.randint(3, 14), rng.randint(3, 14)
     while R == C:
         C = rng.randint(3, 14)
-    style = rng.choice(['lshape', 'blobs', 'diag', 'levels', 'blobs'])
-    case = ic.gen_image(rng, (R, C), style)
+    style = rng.choice(['lshape', 'blobs', 'diag', 'levels', 'blobs', 'bigblob', 'bigblob'])
+    blob = None
+    if style == 'bigblob' and min(R, C) >= 6:
+        # one large filled island (so that it has interior pixels) plus small ones; used with a region that is SMALLER than the
+        # island and lies wholly inside its interior
+        case = ic.gen_image(rng, (R, C), 'blobs')
+        h, w = rng.randint(3, R - 2), rng.randint(3, C - 2)
+        r0, c0 = rng.randint(0, R - h), rng.randint(0, C - w)
+        for nm, val in (('bkg', 0.0), ('rms', 2.0)):
+            case[nm][r0:r0 + h, c0:c0 + w] = val
+        case['im'][r0:r0 + h, c0:c0 + w] = 2.0 * (case['seed'][0] // case['seed'][1] + 3) * rng.choice([1, -1])
+        blob = (r0 + rng.randint(1, h - 2), c0 + rng.randint(1, w - 2))      # an interior pixel (row, col)
+    else:
+        case = ic.gen_image(rng, (R, C), style if style != 'bigblob' else 'blobs')
     proj = rng.choice(['SIN', 'TAN', 'ZEA', 'ARC', 'STG'])
     crval = (rng.choice([0.01, 359.99, 150.0, 210.5]), rng.choice([-70.0, -30.0, 0.0, 45.0, 80.0]))
     cdelt = rng.choice([0.2, 0.5, 1.0])
@@ -47,7 +59,16 @@ def mk_region_case(rng):
     ra, dec = wh.wcs.wcs_pix2world([[x, y]], 1)[0]
     rad = cdelt * rng.uniform(0.6, max(R, C) * 0.4)
     kind = rng.choice(['deep', 'deep', 'coarse', 'union', 'pixels', 'all'])
-    if kind == 'deep':
+    if blob is not None and rng.random() < 0.8:
+        kind = 'tiny'
+    if kind == 'tiny':
+        # the single deepest-level HEALPix pixel under the centre of an interior pixel of the big island (much smaller than an image pixel)
+        import healpy as hp
+        depth = rng.choice([11, 12])
+        reg = Region(maxdepth=depth)
+        bra, bdec = wh.wcs.wcs_pix2world([[blob[1] + 1, blob[0] + 1]], 1)[0]
+        reg.add_pixels([int(hp.ang2pix(2 ** depth, np.pi / 2 - np.radians(bdec), np.radians(bra), nest=True))], depth)
+    elif kind == 'deep':
         reg.add_circles(np.radians(ra), np.radians(dec), np.radians(rad))
     elif kind == 'coarse':
         # inserted at a coarser level: levels between it and maxdepth stay empty
